@@ -346,6 +346,24 @@ def build_names(tier):
         items.append(mk(lab, mkg, '6e8', 'control', credit=credit))
         for cheat in ('2*c', 'c+c', '6e8+0*c', '6e8*c^0', '6e8+c-c', 'C*2', '6e8+0*y', '6e8+0*x', '6e8+0*cos(c)'):
             items.append(mk(lab, mkg, cheat, 'cheat', UNDEF_ERR, tag='instructor-var'))
+        # nothing at all left for the student: no variables, every default constant hidden or removed
+        empties = [
+            ('FormulaGrader no variables, instructor_vars=[pi,e,i,j]',
+             lambda credit=credit: FormulaGrader(answers={'expect': '2*pi', 'grade_decimal': credit},
+                                                 instructor_vars=['pi', 'e', 'i', 'j'], tolerance='0.1%')),
+            ('NumericalGrader with pi, e, i, j removed (user_constants None)',
+             lambda credit=credit: NumericalGrader(answers={'expect': '6.283185307', 'grade_decimal': credit},
+                                                   user_constants={'pi': None, 'e': None, 'i': None, 'j': None}, tolerance='0.1%')),
+            ('MatrixGrader no variables, instructor_vars=[pi,e,i,j]',
+             lambda credit=credit: MatrixGrader(answers={'expect': '2*pi', 'grade_decimal': credit},
+                                                instructor_vars=['pi', 'e', 'i', 'j'], tolerance='0.1%')),
+        ]
+        for lab0, mkg in empties:
+            lab = '%s credit %r' % (lab0, credit)
+            items.append(mk(lab, mkg, '6.283185307', 'control', credit=credit))
+            for cheat in ('2*pi', 'pi*2', '6.283185307+0*pi', '6.283185307+pi-pi', '6.283185307*e^0', '6.283185307+0*i',
+                          '6.283185307+j-j', '6.283185307+0*x'):
+                items.append(mk(lab, mkg, cheat, 'cheat', UNDEF_ERR, tag='empty-scope'))
     return items
 
 
